@@ -260,6 +260,41 @@ def run(tier, work, replay=None):
             feats = dict(gamma.features(it["op"]), part="universe")
             judge_doc(v, feats, uschema, authored, it["name"], rec.get("body"), {"operation": gamma.render_op(it["name"], it["op"])})
     v.cov["universe_operations"] = len(uitems)
+    # ---- (e) the repository's own example projects: every operation of every project, as its authors wrote it
+    from .. import corpus
+    import tomllib
+
+    def cone(proj):
+        job = work.dir / ("c2e_" + proj["name"].replace(":", "_"))
+        cfgname, target = corpus.stage(job, proj, comments=None)
+        sec = tomllib.loads((job / proj["config"]).read_text()).get("tool", {}).get("ariadne-codegen", {})
+        qp = job / sec.get("queries_path", "")
+        if not sec.get("queries_path") or not qp.is_file() or sec.get("base_client_file_path"):
+            return proj, None
+        authored = qp.read_text()
+        ops_ = [d.name.value for d in parse(authored).definitions if isinstance(d, OperationDefinitionNode) and d.name and d.operation.value != "subscription"]
+        r = generate(job, "client", config=cfgname)
+        if r["exc_class"]:
+            return proj, {"gen": r["exc_class"]}
+        try:
+            o = run_in_pkg(target.parent, "harness.pkg.capture", {"package": target.name, "ops": ops_, "data": None, "async": sec.get("async_client", True),
+                                                                  "client_name": sec.get("client_name")})
+        except Machinery as ex:
+            return proj, {"driver": str(ex)[-300:]}
+        return proj, {"authored": authored, "schema": (job / sec.get("schema_path", "schema.graphql")).read_text(), "ops": ops_, "o": o}
+    n_corpus_ops = 0
+    for proj, res_ in pmap(cone, [pj for pj in corpus.projects() if pj["strategy"] == "client"]):
+        if not res_ or "authored" not in res_:
+            continue            # no queries file / custom base client / does not generate here: other checks' business
+        cschema = build_schema(res_["schema"], assume_valid=True)      # some example schemas have no Query root
+        for name in res_["ops"]:
+            rec = res_["o"]["ops"].get(name, {})
+            if not rec.get("body"):
+                continue        # the capture driver could not call the method with placeholder arguments
+            n_corpus_ops += 1
+            n_eval += 1
+            judge_doc(v, {"part": "corpus", "corpus": proj["name"], "operation": name}, cschema, res_["authored"], name, rec.get("body"), {"project": proj["name"]})
+    v.cov["corpus_operations"] = n_corpus_ops
     v.cov["evaluations"] = n_eval
     rs, rejected, inv = validate_traces_parallel("OpText_Trace", "OpText_Trace.cfg", traces, work.sub("tv"), chunk_size=2500)
     for r3 in rs:
